@@ -13,13 +13,17 @@ for d in sorted(glob.glob(os.path.join(root, "C*", "*"))):
         except Exception:
             return None
     meta, ver, res = load("meta.json"), load("verify.json"), load("check_result.json")
+    note = load("strengthening.json")
+    if note and meta is not None:
+        meta = dict(meta); meta["_note"] = note.get("note", "")
     pid = os.path.basename(os.path.dirname(d)); var = os.path.basename(d)
     rows.append((pid, var, meta or {}, ver, res))
 out = ["# Seeded breaking changes and what the registered checks do with them", "",
        "Each change was written by a sub-agent that saw only the property text and a scratch worktree; "
        "`verify.json` = my own confirmation in a scratch worktree (demo passes at HEAD, full ctest passes with the patch, demo fails with the patch); "
        "`check_result.json` = the property's registered quick command run against the patched tree.", "",
-       "| property | variant | change (files) | needs | confirmed | quick check | first oracle message |", "|---|---|---|---|---|---|---|"]
+       "| variant | file | change | confirmed by me | registered quick check | first oracle message |", "|---|---|---|---|---|---|"]
+notes = []
 for pid, var, meta, ver, res in rows:
     files = ", ".join(os.path.basename(f) for f in meta.get("files_touched", []))[:80]
     summ = (meta.get("summary", "") or "")[:140].replace("|", "/").replace("\n", " ")
@@ -27,6 +31,11 @@ for pid, var, meta, ver, res in rows:
     conf = "-" if ver is None else ("yes" if ver.get("confirmed") else "no: demo %s/%s ctest %s" % (ver.get("demo_exit_at_head"), ver.get("demo_exit_with_patch"), ver.get("ctest_failures_with_patch")))
     det = "-" if res is None else ("DETECTED (%ds)" % res.get("wall_s", 0) if res.get("detected") else "missed (exit %s)" % res.get("exit"))
     msg = "" if res is None else (res.get("first_oracle_message", "") or "")[:160].replace("|", "/")
-    out.append("| %s | %s | %s (%s) | %s | %s | %s | %s |" % (pid, var, summ, files, needs, conf, det, msg))
+    out.append("| %s/%s | %s | %s | %s | %s | %s |" % (pid, var, files, summ, conf, det, msg[:120]))
+    if meta.get("_note"):
+        notes.append("* **%s/%s** - %s" % (pid, var, meta["_note"]))
+nd = sum(1 for r in rows if r[4] and r[4].get("detected")); nc = sum(1 for r in rows if r[3] and r[3].get("confirmed"))
+out += ["", "%d variants, %d confirmed, %d detected by the registered quick check of their property." % (len(rows), nc, nd), "",
+        "## Checks strengthened because a seeded change was missed at first", ""] + notes
 open(os.path.join(root, "SUMMARY.md"), "w").write("\n".join(out) + "\n")
 print("\n".join(out[-len(rows):]))
